@@ -90,3 +90,38 @@ def run_C10(run):
 
 def run_C20(run):
     return _run(run, [monitors.C20()])
+
+
+def run_C08(run):
+    """the graph restricted to grouping operations, to depth 4 (5)"""
+    L = explore.Level
+    gq = dsl.group_ops() + [dsl.Op('capture', ('y',), 1, [('method', "({0}).capture('y')"), ('class', "Capture({0}, 'y')")], None, 'group')]
+    opt = [o for o in dsl.quantifier_ops() if o.name == 'optional' and o.params == (True,)]
+    cat = [o for o in dsl.binary_ops() if o.name in ('concat', 'either')]
+    partners = [("Pregex('b')", 'b'), ("Capture('c')", None), ("Capture('c', 'z')", None)]
+    atoms = al.atom_list(['a', '(', ')', '?:', '?P<', '(?P<x>', '(?i:', '(a)', '(?:a)', 'A'],
+                         ["AnyLetter()", "Either('a', 'B')", "FollowedBy(Pregex(), 'b')", "NotPrecededBy(Pregex(), 'b')",
+                          "FollowedBy('a', 'b')", "Conditional('n', 'a')", "Conditional('n', 'a', 'B')", 'Backreference(1)',
+                          "Backreference('n')", "Capture('a')", "Capture('a', 'x')", "Group('a', True)", "Group('aB')", 'Pregex()'])
+    depth = 4 if run.tier == 'quick' else 5
+    levels = [L(gq + opt, cat[:1] if i else cat, partners, (0, 1), f'depth {i + 1}: capture()/capture(x)/capture(y)/group()/group(True)/optional, concat with b, (c), (?P<z>c)')
+              for i in range(depth)]
+    res = explore.run([dsl.atom(e, l) for e, l in atoms], levels, [monitors.C08()], nested_tail=(run.tier != 'quick'))
+    run.add(res['violations'])
+    run.merge_counts(res['counts'])
+    cov = {
+        'states': len(res['hashes']) + res['counts'].get('tail_states_local', 0),
+        'transitions': res['counts'].get('transitions', 0),
+        'traces_validated_against_impl': res['counts'].get('executions', 0),
+        'evaluations': res['counts'].get('executions', 0),
+        'distinct_nontrivial': len(res['hashes']),
+        'states_per_level': res['states_per_level'],
+        'samples': res['samples'],
+        'rule': 'explicit-state BFS over the DSL value graph restricted to grouping operations; the result tree of every '
+                'capture()/group() transition is predicted from the operand tree by the documented rules and compared '
+                '(tree equality, else all texts over a derived alphabet incl. group spans)',
+        'exhaustive': True,
+        'bounds': {'depth': depth, 'atoms': len(atoms), 'ops_per_state': len(gq) + 1 + 2 * len(partners)},
+    }
+    return cov, ['CPython re._parser is the trusted reader of group structure',
+                 'expressions that define the same group name twice are out of scope']
